@@ -438,6 +438,7 @@ def run(ctx):
     _moment_rules(ctx, repo)
     _frozen_rules(ctx, repo)
     _batch_rules(ctx, repo, ci)
+    _cache_inheritance(ctx, repo)
 
 
 # ---------------------------------------------------------------------------
@@ -750,3 +751,84 @@ def _batch_rules(ctx, repo, ci):
             ok = False
             msg = msg or f'{mn} never commits the edited copy back to self'
         ctx.ob('C05.h', f'{CIRC}.{mn}', ok, msg, rel, fn.lineno)
+
+
+def _cache_inheritance(ctx, repo):
+    """C05.i - a circuit built from another one inherits a memoised summary only if no field the summary depends on was changed."""
+    ctx.decided.append('C05.i a circuit built from another circuit (with_tags, copy, _from_moments, ...) takes over a memoised summary - a lazy field, a cached method/property, '
+                       'or the whole __dict__ - only if every field that summary is computed from is carried over unchanged')
+    ctx.rule('C05.i', 'cache inheritance: in every method of Circuit / FrozenCircuit that builds a new circuit and changes a field F (tags, moments), no memoised value whose '
+             'computation reads F (e.g. is_parameterized, parameter_names, __hash__ read the tags) is copied from self', floor=6, style='COH')
+    ac = repo.cls('cirq.circuits.circuit.AbstractCircuit')
+    for cq in ('cirq.circuits.circuit.Circuit', 'cirq.circuits.frozen_circuit.FrozenCircuit'):
+        ci = repo.cls(cq)
+        # memoised slots and what they are computed from
+        slots = {}
+        for mn, fn in ci.methods.items():
+            decs = [dotted(d) or ast.unparse(d) for d in fn.decorator_list]
+            cached = any(d.split('.')[-1] in ('cached_method', 'cached_property') for d in decs)
+            lazy = None
+            for st in ast.walk(fn):      # `if self._x is None: self._x = super().m()`
+                if isinstance(st, ast.Assign) and len(st.targets) == 1 and is_self_attr(st.targets[0]) and isinstance(st.value, ast.Call) \
+                        and isinstance(st.value.func, ast.Attribute) and isinstance(st.value.func.value, ast.Call) and call_name(st.value.func.value) == 'super':
+                    lazy = (st.targets[0].attr, st.value.func.attr)
+            if lazy is not None:
+                base = repo.find_method(ac, lazy[1])
+                if base is not None:
+                    slots[lazy[0]] = F.self_reads(repo, ci, base[1], depth=3)
+            elif cached:
+                rd = F.self_reads(repo, ci, fn, depth=1)
+                sup = [c.func.attr for c in ast.walk(fn) if isinstance(c, ast.Call) and isinstance(c.func, ast.Attribute) and isinstance(c.func.value, ast.Call)
+                       and call_name(c.func.value) == 'super']
+                sup += [n.attr for n in ast.walk(fn) if isinstance(n, ast.Attribute) and isinstance(n.value, ast.Call) and call_name(n.value) == 'super']
+                for sm in sup:
+                    base = repo.find_method(ac, sm)
+                    if base is not None:
+                        rd |= F.self_reads(repo, ci, base[1], depth=3)
+                slots['<cached:' + mn + '>'] = rd
+        if not slots:
+            raise AnalysisError(f'{cq}: no memoised summaries found')
+
+        def norm(fs):
+            out = set()
+            for f in fs:
+                f = F.norm_field(repo, ci, f)
+                out.add({'moments': '_moments', 'tags': '_tags'}.get(f, f))
+            return out
+        slots = {k: norm(v) for k, v in slots.items()}
+        for mn, fn in sorted(ci.methods.items()):
+            news = {st.targets[0].id: st.value for st in ast.walk(fn) if isinstance(st, ast.Assign) and len(st.targets) == 1 and isinstance(st.targets[0], ast.Name)
+                    and isinstance(st.value, ast.Call) and call_name(st.value) in (ci.name, 'Circuit', 'FrozenCircuit', 'cls')}
+            if not news:
+                continue
+            for nm, ctor in news.items():
+                changed = set()
+                inherited = set()
+                wholesale = False
+                for k in ctor.keywords:
+                    if k.arg and ast.unparse(k.value) not in (f'self.{k.arg}', f'self._{k.arg}'):
+                        changed.add('_' + k.arg.lstrip('_'))
+                if ctor.args:
+                    changed.add('_moments')
+                for st in ast.walk(fn):
+                    if isinstance(st, ast.Assign) and len(st.targets) == 1:
+                        t, v = st.targets[0], st.value
+                        base = t.value if isinstance(t, ast.Subscript) else t
+                        if isinstance(base, ast.Attribute) and isinstance(base.value, ast.Name) and base.value.id == nm:
+                            f = base.attr
+                            src = ast.unparse(v)
+                            if src in (f'self.{f}', f'self.{f.lstrip("_")}', f'self._{f.lstrip("_")}'):
+                                if f in slots:
+                                    inherited.add(f)
+                            elif not (isinstance(v, ast.Constant) and v.value is None):
+                                changed.add('_' + f.lstrip('_'))
+                    if isinstance(st, ast.Call) and isinstance(st.func, ast.Attribute) and st.func.attr == 'update' and ast.unparse(st.func.value) == f'{nm}.__dict__' \
+                            and st.args and ast.unparse(st.args[0]) == 'self.__dict__':
+                        wholesale = True
+                if wholesale:
+                    inherited |= set(slots)
+                stale = sorted(s for s in inherited if slots[s] & changed)
+                ctx.ob('C05.i', f'{cq}.{mn}:{nm}', not stale,
+                       '' if not stale else f'{mn} builds a circuit whose {sorted(changed)} differ from self but hands it the memoised {stale} of self, which '
+                       f'{"are" if len(stale) > 1 else "is"} computed from {sorted(set().union(*[slots[s] & changed for s in stale]))}: the new circuit answers (is_parameterized, '
+                       'parameter_names, hash ...) with the values of the old one', ci.mod.rel, fn.lineno)
